@@ -382,6 +382,7 @@ def run(ctx):
         ctx.violation(key, "solve_ivp %s not explained by AdaptiveRK at event %d/%d: %s" % (json.dumps(t_["cfg"]), matched + 1, total, json.dumps(ev)[:400]), {"cfg": t_["cfg"]})
     nnum = fixed_numeric(ctx)
     ctx.samples.append({"cfg": traces[0]["cfg"], "events": traces[0]["ev"][:6]})
+    ctx.replayed = nfix
     ctx.notes.update(fixed_exact_cases=nfix, adaptive_runs=len(traces), try_events=sum(len(t_["ev"]) for t_ in traces), fixed_numeric_cases=nnum)
     ctx.assumptions += [
         "tableau entries are read from the imported modules and converted with Fraction.limit_denominator(1e7); an entry that does not round-trip is reported",
